@@ -6,12 +6,13 @@ package dialect
 
 //@ func (*ReadWriter).GetMessage
 //@   requires rw != nil
-//@   ensures  (res != nil) == ufDialectHas(rw, id)
-//@   ensures  res != nil ==> res.CRCExtra() == ufDialectExtra(rw, id) && ufCodecId(res) == ufDialectCodec(rw, id)
-//@   ensures  res != nil ==> message.SpecCodecInv(res)
+//@   ensures  [absent-id-yields-nothing] !mapHasKey(rw.messageRWs, id) ==> res == nil
+//@   ensures  [present-id-yields-its-entry] mapHasKey(rw.messageRWs, id) ==> res == rw.messageRWs[id]
+//@   defines  (res != nil) == ufDialectHas(rw, id)
+//@   defines  res != nil ==> res.CRCExtra() == ufDialectExtra(rw, id) && ufCodecId(res) == ufDialectCodec(rw, id)
+//@   defines  res != nil ==> message.SpecCodecInv(res)
 //@   modifies nothing
-//@   trusted
-//@   assumes  the message table is not modified after Initialize, so GetMessage is a function of (rw, id): ufDialectHas / ufDialectExtra / ufDialectCodec are DEFINED by its results
+//@   assumes  the message table is not modified after Initialize, so GetMessage is a function of (rw, id): ufDialectHas / ufDialectExtra / ufDialectCodec are DEFINED by its results (defines clauses); table entries satisfy the codec invariant established by message.(*ReadWriter).Initialize
 
 //@ func (*ReadWriter).Initialize
 //@   ghostlog (*message.ReadWriter).Initialize
